@@ -76,6 +76,10 @@ type vfC14Case struct {
 	ServerTmux int           `json:"server_tmux"` // 0 none, 1 normal mode with pane width
 	Download  bool           `json:"download"`
 	More      []vfC14Round   `json:"more,omitempty"` // further handshakes through the same relay instance
+	// how this transfer ends: 0 the client's EXIT once the relay is transferring; 1 the client gives up (#fail:) while the relay
+	// still waits for a slow server's configuration; 2 the client's EXIT right behind the configuration it was sent, whatever
+	// the relay's state; 3 the server's own #fail: in the same write as its configuration (it failed right after answering)
+	End int `json:"end,omitempty"`
 }
 
 type vfC14Round struct {
@@ -83,15 +87,16 @@ type vfC14Round struct {
 	Args       vfPairCfg      `json:"args"`
 	ServerTmux int            `json:"server_tmux"`
 	Download   bool           `json:"download"`
+	End        int            `json:"end,omitempty"`
 }
 
 func vfC14Run(cs vfC14Case) string {
 	g := newVfRelayRig(cs.Tmux, cs.PaneWidth)
 	defer g.close()
-	rounds := append([]vfC14Round{{Action: cs.Action, Args: cs.Args, ServerTmux: cs.ServerTmux, Download: cs.Download}}, cs.More...)
+	rounds := append([]vfC14Round{{Action: cs.Action, Args: cs.Args, ServerTmux: cs.ServerTmux, Download: cs.Download, End: cs.End}}, cs.More...)
 	for i, r := range rounds {
 		one := cs
-		one.Action, one.Args, one.ServerTmux, one.Download = r.Action, r.Args, r.ServerTmux, r.Download
+		one.Action, one.Args, one.ServerTmux, one.Download, one.End = r.Action, r.Args, r.ServerTmux, r.Download, r.End
 		if m := vfC14Round1(g, one, i); m != "" {
 			if i > 0 {
 				return fmt.Sprintf("handshake %d through the same relay: %s", i+1, m)
@@ -180,7 +185,21 @@ func vfC14Round1(g *vfRelayRig, cs vfC14Case, round int) string {
 		return "sendConfig: " + err.Error()
 	}
 	cfgLine := append([]byte(nil), cfgBuf.Bytes()...)
-	g.srvOut.feed(cfgLine)
+	failLine := vfEncodeLine("fail", []byte("Stopped"), "\n")
+	switch cs.End {
+	case 1:
+		// the client gives up before the (slow) server has answered: its line is parked at the relay, which waits for the config
+		g.cliIn.feed(failLine)
+		parked := time.Now().Add(3 * time.Second)
+		for len(g.relay.stdinBuffer.bufCh) == 0 && time.Now().Before(parked) {
+			time.Sleep(100 * time.Microsecond)
+		}
+		g.srvOut.feed(cfgLine)
+	case 3:
+		g.srvOut.feed(append(append([]byte(nil), cfgLine...), failLine...))
+	default:
+		g.srvOut.feed(cfgLine)
+	}
 	marker := "#CFG:"
 	at, ok = vfWaitFor(g.cliOut, cliBase, marker, 3*time.Second)
 	if !ok {
@@ -214,23 +233,38 @@ func vfC14Round1(g *vfRelayRig, cs vfC14Case, round int) string {
 		return fmt.Sprintf("the CFG reaching the client dropped or changed a server setting: server %s, client sees %s", cfg1JSON, cfg2JSON)
 	}
 	_ = nl
-	// end of transfer: back to standby, transparent again. A client cannot answer the config within the few microseconds the
-	// relay needs to leave its handshake (it transfers files first), so the EXIT line is sent once the relay is transferring.
-	deadline0 := time.Now().Add(3 * time.Second)
-	for g.relay.relayStatus.Load() != kRelayTransferring {
-		if time.Now().After(deadline0) {
-			return "the relay did not enter the transferring state after the handshake"
+	// end of transfer: back to standby, transparent again
+	how := "EXIT"
+	switch cs.End {
+	case 1:
+		how = "the client's #fail: that came before the server's configuration"
+		if _, ok := vfWaitFor(g.srvIn, srvBase, "#fail:", 3*time.Second); !ok {
+			return "the client's #fail: line, parked during the handshake, did not reach the server"
 		}
-		time.Sleep(100 * time.Microsecond)
-	}
-	g.cliIn.feed(vfEncodeLine("EXIT", []byte("Saved 1 file"), "\n"))
-	if _, ok := vfWaitFor(g.srvIn, srvBase, "#EXIT:", 3*time.Second); !ok {
-		return "the EXIT line did not reach the server"
+	case 3:
+		how = "the server's #fail: right behind its configuration"
+		if _, ok := vfWaitFor(g.cliOut, cliBase, "#fail:", 3*time.Second); !ok {
+			return "the server's #fail: line behind its configuration did not reach the client"
+		}
+	default:
+		if cs.End != 2 {
+			deadline0 := time.Now().Add(3 * time.Second)
+			for g.relay.relayStatus.Load() != kRelayTransferring {
+				if time.Now().After(deadline0) {
+					return "the relay did not enter the transferring state after the handshake"
+				}
+				time.Sleep(100 * time.Microsecond)
+			}
+		}
+		g.cliIn.feed(vfEncodeLine("EXIT", []byte("Saved 1 file"), "\n"))
+		if _, ok := vfWaitFor(g.srvIn, srvBase, "#EXIT:", 3*time.Second); !ok {
+			return "the EXIT line did not reach the server"
+		}
 	}
 	deadline := time.Now().Add(3 * time.Second)
 	for g.relay.relayStatus.Load() != kRelayStandBy {
 		if time.Now().After(deadline) {
-			return "the relay did not return to standby after EXIT"
+			return "the relay did not return to standby after " + how
 		}
 		time.Sleep(time.Millisecond)
 	}
@@ -269,6 +303,7 @@ func vfGenC14(rt *rapid.T) vfC14Case {
 	cs.PaneWidth = int32(rapid.SampledFrom([]int{0, -1, 40, 80, 200}).Draw(rt, "pane"))
 	cs.ServerTmux = rapid.IntRange(0, 1).Draw(rt, "servertmux")
 	cs.Download = rapid.Bool().Draw(rt, "download")
+	cs.End = rapid.SampledFrom([]int{0, 0, 1, 2, 3}).Draw(rt, "end")
 	// further handshakes through the same relay: what one transfer negotiated must not leak into the next
 	nmore := rapid.SampledFrom([]int{0, 0, 1, 2}).Draw(rt, "nmore")
 	for i := 0; i < nmore; i++ {
@@ -280,6 +315,7 @@ func vfGenC14(rt *rapid.T) vfC14Case {
 		r.Args.Timeout = rapid.SampledFrom([]int{20, 1, 0, 300}).Draw(rt, "timeout_m")
 		r.ServerTmux = rapid.IntRange(0, 1).Draw(rt, "servertmux_m")
 		r.Download = rapid.Bool().Draw(rt, "download_m")
+		r.End = rapid.SampledFrom([]int{0, 0, 1, 2, 3}).Draw(rt, "end_m")
 		cs.More = append(cs.More, r)
 	}
 	return cs
@@ -289,7 +325,7 @@ func TestVF_C14(t *testing.T) {
 	c := vfNewCollector("C14", "TestVF_C14")
 	vfCheck(t, c, vfGenC14, func(cs vfC14Case) string {
 		msg := vfC14Run(cs)
-		labels := []string{"handshake_level", fmt.Sprintf("handshakes_through_one_relay_%d", 1+len(cs.More))}
+		labels := []string{"handshake_level", fmt.Sprintf("handshakes_through_one_relay_%d", 1+len(cs.More)), fmt.Sprintf("first_transfer_end_mode_%d", cs.End)}
 		if cs.Tmux {
 			labels = append(labels, "relay_in_tmux")
 		}
@@ -406,8 +442,11 @@ func vfGenC14Seq(rt *rapid.T) vfC14SeqCase {
 	cs.Tunnel = rapid.IntRange(0, 2).Draw(rt, "tunnel") == 0
 	n := rapid.IntRange(2, 5).Draw(rt, "n")
 	for i := 0; i < n; i++ {
-		cs.Acts = append(cs.Acts, vfC05Act{Kind: "transfer", Outcome: rapid.SampledFrom([]string{"succeeded", "succeeded", "refused", "failed", "stopped", "stopped_ui", "sigint", "sigint", "forked"}).Draw(rt, "outcome"),
-			Upload: rapid.Bool().Draw(rt, "upload")})
+		a := vfC05Act{Kind: "transfer", Outcome: rapid.SampledFrom([]string{"succeeded", "succeeded", "refused", "failed", "stopped", "stopped_ui", "sigint", "sigint", "forked"}).Draw(rt, "outcome"),
+			Upload: rapid.Bool().Draw(rt, "upload")}
+		// the end comes while the relays are still between the action and a slow server's configuration
+		a.Early = (a.Outcome == "stopped" || a.Outcome == "sigint") && rapid.IntRange(0, 2).Draw(rt, "early") == 0
+		cs.Acts = append(cs.Acts, a)
 	}
 	cs.Acts = append(cs.Acts, vfC05Act{Kind: "transfer", Outcome: "succeeded", Upload: rapid.Bool().Draw(rt, "lastupload")})
 	cs.Windows = rapid.IntRange(0, 3).Draw(rt, "client_windows") == 0
@@ -435,6 +474,9 @@ func TestVF_C14Seq(t *testing.T) {
 		}
 		for _, a := range cs.Acts {
 			labels = append(labels, "outcome_"+a.Outcome)
+			if a.Early {
+				labels = append(labels, "ended_during_the_handshake")
+			}
 		}
 		c.eval(cs, len(cs.Acts) >= 2, labels...)
 		return msg
